@@ -8,6 +8,7 @@
 #define SPECTRA_SYM_GEIGS_CHOLESKY_OP_H
 
 #include <Eigen/Core>
+#include <stdexcept>
 
 #include "../DenseSymMatProd.h"
 #include "../DenseCholesky.h"
@@ -46,7 +47,10 @@ public:
     ///
     SymGEigsCholeskyOp(const OpType& op, const BOpType& Bop) :
         m_op(op), m_Bop(Bop), m_cache(op.rows())
-    {}
+    {
+        if (op.rows() != Bop.rows())
+            throw std::invalid_argument("SymGEigsCholeskyOp: the A and B matrix operations must have the same size");
+    }
 
     ///
     /// Move constructor.
